@@ -1,8 +1,9 @@
-import OntVerif.Proofs.MerkleN
+import OntVerif.Proofs.MerkleP
 /-! Helper lemmas for C26 / C27 (merkle tree model), split over `MerkleA` … `MerkleN` (core-only):
 `A` split point and `mth`; `B` compact tree and hash-store layout invariant (`Holds`); `C` the iterative audit-path loop
 equals the recursive RFC 6962 evaluation; `D` completeness / soundness / uniqueness of that evaluation; `E` cross-chain
 path soundness, pairing tree = `mth`; `F` `MerkleLeafPath` emits the RFC audit path; `G` fuel-free consistency-verifier
 loops; `H` iterative consistency verifier = recursive evaluation; `I` completeness / soundness / uniqueness of that
 evaluation; `J` store layout seen from the top bit; `K` `getSubTreePos` and reading subtree roots from the store;
-`L` `InclusionProof` = RFC audit path; `M` `ConsistencyProof` = RFC consistency proof; `N` stored hash count. -/
+`L` `InclusionProof` = RFC audit path; `M` `ConsistencyProof` = RFC consistency proof; `N` stored hash count;
+`O` the hash file with its cursor (`FHolds`); `P` byte-level round trip of cross-chain paths. -/
